@@ -195,8 +195,9 @@ class World(object):
         from yabgp.core.factory import BGPPeering
         self.handler = RecordingHandler()
         self.peering = BGPPeering(myasn=c['local_as'], myaddr=c['local_addr'], peerasn=c['remote_as'],
-                                  peeraddr=c['remote_addr'], afisafi=[(1, 1)], md5=None, handler=self.handler)
+                                  peeraddr=c['remote_addr'], afisafi=[(1, 1)], md5=c.get('md5'), handler=self.handler)
         self.peering.bgp_id = c['bgp_id']
+        self.reactor.md5_refused = bool(c.get('md5_refused'))
         CONF.bgp.running_config['factory'] = self.peering
         self.fsm = self.peering.fsm
         # configured times may be symbolic: oslo.config would coerce (realise) them, so they are put where
